@@ -12,7 +12,7 @@ import (
 
 var c07Profile = &kvh.GenProfile{
 	Weights: map[string]int{
-		"put": 38, "del": 12, "batch": 10, "merge": 22, "wipe": 2, "reopen": 14, "sync": 2, "get": 1,
+		"put": 38, "del": 12, "batch": 10, "merge": 22, "wipe": 5, "reopen": 14, "sync": 2, "get": 1,
 	},
 	MaxBatchOps: 4,
 	Big:         true,
